@@ -380,6 +380,38 @@ func transitiveControlDeps(b *ssa.BasicBlock) []ctrlDep {
 	return out
 }
 
+// iterationControlDeps: the transitive control dependences of b that do not pass through a loop header, i.e. the tests
+// made in the current iteration (a block inside a loop also depends, through the header, on the branches that let earlier
+// iterations continue).
+func iterationControlDeps(b *ssa.BasicBlock, loops []*loopInfo) []ctrlDep {
+	isHead := map[*ssa.BasicBlock]bool{}
+	for _, l := range loops {
+		isHead[l.Head] = true
+	}
+	seen := map[ctrlDep]bool{}
+	var out []ctrlDep
+	visited := map[*ssa.BasicBlock]bool{}
+	var visit func(b *ssa.BasicBlock)
+	visit = func(b *ssa.BasicBlock) {
+		if visited[b] {
+			return
+		}
+		visited[b] = true
+		for _, d := range controlDeps(b) {
+			if isHead[d.If.Block()] {
+				continue
+			}
+			if !seen[d] {
+				seen[d] = true
+				out = append(out, d)
+				visit(d.If.Block())
+			}
+		}
+	}
+	visit(b)
+	return out
+}
+
 // reachableFrom returns the set of blocks reachable from block b (excluding b itself unless on a cycle),
 // optionally starting after instruction index i in b (the rest of b is always "reachable").
 func blocksReachableFrom(b *ssa.BasicBlock) map[*ssa.BasicBlock]bool {
